@@ -2,6 +2,7 @@ SPECIFICATION Spec
 CONSTANTS
   MaxConds = 3
   MaxList = 4
+  MaxStr = 34
   MaxSetLen = 3
 INVARIANTS
   Emit
